@@ -5,6 +5,7 @@ import (
 	"encoding/json"
 	"fmt"
 	"io"
+	"strings"
 )
 
 // ToCSV writes the dump result as CSV to the writer
@@ -106,17 +107,29 @@ func formatCSVValue(val interface{}) string {
 
 	case []interface{}:
 		// Arrays - JSON encode
-		b, _ := json.Marshal(v)
-		return string(b)
+		return jsonCell(v)
 
 	case map[string]interface{}:
 		// JSON/JSONB - JSON encode
-		b, _ := json.Marshal(v)
-		return string(b)
+		return jsonCell(v)
 
 	default:
 		return fmt.Sprintf("%v", v)
 	}
+}
+
+// jsonCell returns the JSON text of an array or map cell. json.Marshal refuses NaN and infinite
+// floats (a numeric[] or float8[] value can hold them) and returns nothing: the cell must not
+// silently become the empty field, so the JSON writer of the SQL export is used then, which
+// writes such numbers as the strings "NaN", "+Inf", "-Inf".
+func jsonCell(v interface{}) string {
+	b, err := json.Marshal(v)
+	if err != nil {
+		var sb strings.Builder
+		writeJSONValue(&sb, v)
+		return sb.String()
+	}
+	return string(b)
 }
 
 // TableToCSV is a convenience function to export a single table
